@@ -23,7 +23,8 @@ def qi(name, member, **kw):
 def qv(name, member, sqv=(), **kw):
     r = member if member.startswith('^') else rx(QVT, member)
     names = {'qv_' + name: r}; names.update({'sqv_' + s: SQV_RX[s] for s in sqv})
-    d = dict(name='qv_' + name, driver='c09_queue.cpp', roots=[r], names=names, types=QV_TYPES, globals=GLOBALS, boundary=BOUNDARY + [SQV_RX[s] for s in sqv], lib=LIBS,
+    # the replaced std_queue<void> members are roots too: they stay in the unit (alias resolvable) even if an edit stops calling them -> a postcondition fails, not the extraction
+    d = dict(name='qv_' + name, driver='c09_queue.cpp', roots=[r] + [SQV_RX[s] for s in sqv], names=names, types=QV_TYPES, globals=GLOBALS, boundary=BOUNDARY + [SQV_RX[s] for s in sqv], lib=LIBS,
              spec=SPEC, harness='h_qv_' + name, enforce='qv_' + name, replace=['sqv_' + s for s in sqv], defines=QV_DEF,
              under_contract=['cocls::queue<void>::' + name])
     d.update(kw); return d
@@ -32,21 +33,53 @@ def sqv(name):
                 lib=['rt_core.c', 'rt_atomic_seq.c', 'model_mutex.c'], defines=['gh_q_lock_required 0', 'gh_q_mx 0'],
                 spec=SPEC, harness='h_sqv_' + name, enforce='sqv_' + name, under_contract=['cocls::primitives::std_queue<void>::' + name])
 
-UNITS = [
-    sqv('emplace'), sqv('pop'), sqv('size'), sqv('empty'),
-    qi('ctor', r'queue\(\)'),
-    qi('push', r'^cocls::suspend_point<bool> cocls::queue<int, .*>::push<int>\(int&&\)$'),
-    qi('pop', r'pop\(\)'),
-    qi('unblock_pop', r'unblock_pop\(std::__exception_ptr::exception_ptr\)'),
-    qi('size', r'size\(\)'),
-    qi('empty', r'empty\(\)'),
-    qi('dtor', r'~queue\(\)'),
-    qv('ctor', r'queue\(\)'),
-    qv('push', r'^cocls::suspend_point<bool> cocls::queue<void, .*>::push<>\(\)$', sqv=['emplace']),
-    qv('pop', r'pop\(\)', sqv=['empty', 'pop']),
-    qv('unblock_pop', r'unblock_pop\(std::__exception_ptr::exception_ptr\)'),
-    qv('size', r'size\(\)', sqv=['size']),
-    qv('empty', r'empty\(\)', sqv=['empty']),
-    qv('dtor', r'~queue\(\)'),
-]
-META = dict(level='proof', level_text='TODO', level_note='TODO', technique='TODO', trusted_base=[], assumptions=[], explanation='')
+QI_RX = {'ctor': rx(QIT, r'queue\(\)'), 'push': r'^cocls::suspend_point<bool> cocls::queue<int, .*>::push<int>\(int&&\)$', 'pop': rx(QIT, r'pop\(\)'),
+         'unblock_pop': rx(QIT, r'unblock_pop\(std::__exception_ptr::exception_ptr\)'), 'size': rx(QIT, r'size\(\)'), 'empty': rx(QIT, r'empty\(\)'), 'dtor': rx(QIT, r'~queue\(\)')}
+QV_RX = {'ctor': rx(QVT, r'queue\(\)'), 'push': r'^cocls::suspend_point<bool> cocls::queue<void, .*>::push<>\(\)$', 'pop': rx(QVT, r'pop\(\)'),
+         'unblock_pop': rx(QVT, r'unblock_pop\(std::__exception_ptr::exception_ptr\)'), 'size': rx(QVT, r'size\(\)'), 'empty': rx(QVT, r'empty\(\)'), 'dtor': rx(QVT, r'~queue\(\)')}
+QV_SQV = {'push': ['emplace'], 'pop': ['empty', 'pop'], 'size': ['size'], 'empty': ['empty']}
+OPS = ['ctor', 'push', 'pop', 'unblock_pop', 'size', 'empty']
+LEMMA_SPEC = ['C09/q_spec.h', 'C09/h_lemma.c']
+def lemma(pfx, RXS, types, defs, what):
+    return dict(name=pfx + '_lemma', kind='lemma', driver='c09_queue.cpp', roots=[RXS[n] for n in OPS], names={pfx + '_' + n: RXS[n] for n in OPS}, types=types, globals=GLOBALS,
+                boundary=BOUNDARY, lib=LIBS, spec=LEMMA_SPEC, harness='h_%s_lemma' % pfx, enforce=pfx + '_lemma', replace=[pfx + '_' + n for n in OPS], loop_contracts=True,
+                defines=defs + ['CV_HAS_%s_lemma 1' % pfx], timeout=600, object_bits=10, under_contract=['history lemma over the contracts of %s (ctor, push, pop, unblock_pop, size, empty)' % what])
+def conservation(pfx, RXS, types, defs):
+    # pure linear arithmetic over the counting invariant of the history lemma (SMT back end: 64-bit multi-term sums are hopeless for SAT)
+    return dict(name=pfx + '_conservation', kind='lemma', driver='c09_queue.cpp', roots=[RXS['size']], names={}, types=types, globals=GLOBALS, boundary=BOUNDARY, lib=LIBS, spec=LEMMA_SPEC,
+                harness='h_%s_conservation' % pfx, defines=defs + ['CV_%s_CONSERVATION 1' % pfx.upper()], solver_flag='--z3', solver='smt2 (z3 4.8) - solver-specific',
+                under_contract=['arithmetic consequence of the counting invariant of %s_lemma' % pfx])
+UNITS = [sqv(n) for n in ('emplace', 'pop', 'size', 'empty')] + \
+        [qi(n, QI_RX[n]) for n in ('ctor', 'push', 'pop', 'unblock_pop', 'size', 'empty', 'dtor')] + \
+        [qv(n, QV_RX[n], sqv=QV_SQV.get(n, ())) for n in ('ctor', 'push', 'pop', 'unblock_pop', 'size', 'empty', 'dtor')] + \
+        [lemma('qi', QI_RX, QI_TYPES, QI_DEF, 'cocls::queue<int>'), conservation('qi', QI_RX, QI_TYPES, QI_DEF),
+         lemma('qv', QV_RX, QV_TYPES, QV_DEF, 'cocls::queue<void>'), conservation('qv', QV_RX, QV_TYPES, QV_DEF)]
+META = dict(
+    level='proof',
+    level_text=('Every public member of cocls::queue<int> and cocls::queue<void> (constructor, push, pop incl. the future-constructor lambda, unblock_pop, size, empty, destructor) and of '
+                'primitives::std_queue<void> (emplace, pop, size, empty) is verified on the C translation of the real header against a contract taken from the property statement, for EVERY abstract '
+                'state (any number of queued items and waiting pops, any values, any promise identities): push hands exactly the pushed value to exactly the OLDEST waiting pop, once, after the lock '
+                'was released, or appends it at the tail of the item sequence; pop delivers exactly the head item or parks itself behind all earlier waiting pops with a pending future; unblock_pop fails '
+                'exactly the oldest waiting pop with exactly e (or does nothing, result false); the destructor drops every parked promise exactly once and resolves nobody; queue<void> counts '
+                '(pop on count 0 never wraps). History lemmas over these contracts (every call replaced by its contract, UNBOUNDED loop with invariant, two tagged items, two tagged pops, event counters) '
+                'prove: each pushed item is delivered to exactly one pop (never lost / duplicated; conservation pushes == handed + delivered + |Q|), delivery order == push order, waiting pops are served '
+                'in arrival order, a waiting pop leaves the wait queue only by a push, by unblock_pop (oldest first) or by destruction, and for queue<void> releases == handed + acquired + count.'),
+    level_note=('Sequential contracts per critical section: "every interleaving of producers and consumers" is reduced to "every sequential history of critical sections" by lock-based linearisability - '
+                'machine-checked part: every access to the item / waiter containers (and to the std_queue<void> counter) happens while the queue mutex is held, nothing guarded is read before lock() or after '
+                'unlock(), exactly one critical section per operation, parked promises are resolved and coroutines resumed only after unlock; argued part: the promise resolved outside the lock is a local '
+                'object that was moved out of the wait queue under the lock, so no other thread can reach it. No real threads are run (the "up to 3 producer and 3 consumer threads" of the statement is '
+                'covered by this reduction, not by scheduling). promise<T>/future<T> are ABSTRACT: a resolution is a log entry (which promise, value / exception / dropped, how often, under the lock or not); '
+                'that a dropped promise surfaces as await_canceled_exception and that a resolved future wakes its awaiter are C01/C02, not re-proved here. Only T=int and T=void with the default '
+                'std_queue/std::mutex policies are instantiated; single_item_queue and no_lock are not covered. Conservation sums are derived from the lockstep counting invariant by a separate '
+                'arithmetic lemma that needs an SMT back end (z3) - solver-specific.'),
+    technique=('CBMC 6.11 code contracts (requires/ensures/assigns) enforced per function with goto-instrument --dfcc on the C translation (ir2c) of the clang IR of the real queue.h; std containers and '
+               'promise operations as assumed-contract boundary models with a ghost-index element view; history lemmas = loop contracts over replaced contracts; z3 for pure linear arithmetic'),
+    trusted_base=['assumed contract: std::queue<int>, std::queue<promise<T>> are unbounded FIFOs; front()/pop() need a non-empty queue; emplace moves the promise in; pop()/~queue() destroy elements (lib/model_awq_containers.c)',
+                  'abstract boundary: cocls::promise<T> move/construct/operator()/set_exception/destructor and suspend_point<bool>::~suspend_point as ghost-logging stubs (lib/model_awq_promise.c); future.h internals not translated',
+                  'primitive: std::mutex via pthread_mutex_lock/unlock with lock-discipline obligations (lib/model_mutex.c)',
+                  'rely/guarantee reduction of interleavings to sequential histories of critical sections (argued, DESIGN 3.5)'],
+    assumptions=['ghost positions / event counters are mathematical integers (never wrap: fewer than 2^62 operations); queue<void> count < 2^62',
+                 'std::queue operations do not throw (bad_alloc assumed away); pthread_mutex_lock never fails',
+                 'the std::exception_ptr passed to unblock_pop is an opaque object pointer (identity only); its reference traffic is counted: +1 exactly when a waiting pop received it',
+                 'history lemmas start at the constructor and then continue from an arbitrary state satisfying the invariant; value/identity claims about a tagged element are made for the valuation of the ghost positions that coincides with the positions the element takes (universally quantified ghost index)'],
+    explanation='see level_text')
